@@ -18,7 +18,13 @@ theorem Macros.langid_eq : ∀ lit, UL.Src.Macros.langid lit = UL.Macros.langid 
   cases h : LangId.fromBytes lit with
   | ok x =>
     simp only [UL.SrcTie.LangId.intoParts_eq, LangId.intoParts]
-    exact Macros.evalLangId_parts x
+    first
+    | exact Macros.evalLangId_parts x
+    | -- the same case analysis on the term as the source writes it (branches in another order, another condition)
+      (obtain ⟨l, s, r, vs⟩ := x
+       cases l <;> cases s <;> cases r <;> cases hv : (vs.getD []).isEmpty <;>
+         simp [MTok.evalLangId, MTok.evalLang, MTok.evalOptScript, MTok.evalOptRegion, MTok.evalScript, MTok.evalRegion,
+           MTok.evalVariants, Macros.evalArr_variants, MacroOut.both, MacroOut.map, Macros.idViaRaw, Macros.viaRaw, hv])
   | err e => rfl
   | panic => rfl
 
